@@ -33,7 +33,7 @@ def Ty.wf : Ty → Bool
   | .option t => t.wf
   | .bound t => t.wf
   | .controlFlow b c => b.wf && c.wf
-  | .range _ t => t.wf && t.isZC && pow2b t.sizeOf
+  | .range _ t => t.wf && t.isZC && pow2b t.sizeOf && decide (t.alignOf ≤ t.sizeOf)
   | .rangeFull => true
   | .adt m vs =>
       pow2b m.alignAttr && Variants.wf vs && decide (vs.length < 2^64) &&
